@@ -7,8 +7,8 @@
 // the public API (nfsv4.OpenedFile.Lock), on an empty lock table.
 //
 // Oracle (sound for every linearizable implementation of the table model
-// LockSet/Model.v; LockSet/Properties.v: exclusion, test_iff_denied,
-// lock_grants_exactly): during a round the
+// LockSet/Model.v; LockSet/Properties.v: round_granted_never_conflict,
+// round_denied_has_cause, round_first_granted -- for every order of the round): during a round the
 // table only grows (no unlock runs), so in every sequential order of the
 // requests
 //
